@@ -12,9 +12,12 @@ import (
 	"os"
 	"path/filepath"
 	"reflect"
+	"regexp"
+	"strconv"
 	"strings"
 	"sync"
 	"testing"
+	"time"
 
 	"pgregory.net/rapid"
 	"verif/harness/wire"
@@ -92,11 +95,11 @@ func tweakTemplate(tp *wire.Template, l *c11Later, proto string) (wire.Template,
 }
 
 const c11Rule = "case = a template cache built by a generated announce/re-announce/data history (IPFIX or NetFlow v9, several exporters, plain/options/enterprise templates, optionally adversarial templates with no or zero-length fields from one more exporter) dumped to a file F (in a quarter of the cases on a file system other than the temporary directory's; to a fresh path, or over an existing longer file: the same cache re-indented, a document with trailing octets, a long unrelated document), " +
-	"+ up to 40 corruptions of F; (a) round trip: after GetCache(F) every saved (exporter,id) decodes data exactly as before (records and error text), unannounced pairs stay unknown, and saving the loaded cache again reproduces the file byte for byte; (a') in half of the cases one saved template is then announced again with a changed definition (one scope or ordinary field names another element of the same type and length, two fields change places, a wholly different template, or nothing changes) to the loaded cache or to the cache that wrote the file, that cache is saved over the file, and loading it must give the new definition for that key and the saved one for every other key; " +
+	"+ up to 40 corruptions of F; (a) round trip: after GetCache(F) every saved (exporter,id) decodes data exactly as before (records and error text), unannounced pairs stay unknown, and saving the loaded cache again reproduces the file (the same JSON, or a file that loads to the same templates); (a') in half of the cases one saved template is then announced again with a changed definition (one scope or ordinary field names another element of the same type and length, two fields change places, a wholly different template, or nothing changes) to the loaded cache or to the cache that wrote the file, that cache is saved over the file, and loading it must give the new definition for that key and the saved one for every other key; " +
 	"(b) crash points: EVERY prefix F[:k] (all k when |F| <= 6 KiB, otherwise the first/last 1.5 KiB, 64 octets around every shard boundary and 600 sampled offsets) is loaded; " +
 	"(c) byte-level (flip, delete, insert, duplicate a range) and structure-level corruptions via a generic JSON tree (drop/null shards, null or wrongly typed Templates, extra shards, wrong/huge/negative/string ShardNo, " +
-	"null or garbage template entries, entry keys that are empty / too short / odd / not hexadecimal / very long / in the wrong shard, non-object documents, duplicate keys, deep nesting) plus absent/empty/directory paths; " +
-	"oracle = loading never panics; the loaded cache is usable: announcing a template and decoding data works for 32 probe keys covering all 32 shards and agrees with the reference model; " +
+	"null or garbage template entries, entry keys that are empty / too short / odd / not hexadecimal / very long / in the wrong shard, non-object documents, duplicate keys, deep nesting; every template's time of announcement moved 32 min .. 10 years back, to 0 or -1, or ahead) plus absent/empty/directory paths; " +
+	"oracle = loading never panics and every call comes back (a call that sits blocked for ten seconds is a violation); the loaded cache is usable: announcing a template and decoding data works for 32 probe keys covering all 32 shards and agrees with the reference model; " +
 	"for prefixes and removal-only corruptions every saved key yields 'unknown' or exactly its saved template; " +
 	"non-trivial = some corrupted file still parses as JSON with a shape different from the saved one, or a prefix cuts inside a template; distinct by hash"
 
@@ -243,9 +246,9 @@ func checkNothingInvented(cache *flowCache, probes []savedProbe, mustHave bool) 
 // ---------------------------------------------------------------- corruptions
 
 var structKinds = []string{"drop-shard", "null-shard", "null-templates", "wrong-templates", "extra-shards", "shardno", "cache-wrong", "remove-entry",
-	"entry-garbage", "doc-wrong", "dup-key", "deep", "template-wrong-types", "empty-cache-array", "count-mismatch", "specifier-tweak", "key-tweak", "key-tweak"}
+	"entry-garbage", "doc-wrong", "dup-key", "deep", "template-wrong-types", "empty-cache-array", "count-mismatch", "specifier-tweak", "key-tweak", "key-tweak", "timestamps", "timestamps"}
 
-var removalOnly = map[string]bool{"drop-shard": true, "null-shard": true, "null-templates": true, "remove-entry": true, "empty-cache-array": true}
+var removalOnly = map[string]bool{"drop-shard": true, "null-shard": true, "null-templates": true, "remove-entry": true, "empty-cache-array": true, "timestamps": true}
 
 func genC11Muts(t *rapid.T) []c11Mut {
 	var out []c11Mut
@@ -268,10 +271,57 @@ func genC11Muts(t *rapid.T) []c11Mut {
 	return out
 }
 
+var tsRe = regexp.MustCompile(`"Timestamp":-?[0-9]+`)
+
+// callReturns runs f and reports whether it came back: a call that is still out after ten seconds is given more time
+// (five minutes at most) only while the process keeps using processor time; one that sits blocked is reported.
+func callReturns(f func()) bool {
+	done := make(chan struct{})
+	go func() { defer close(done); f() }()
+	select {
+	case <-done:
+		return true
+	case <-time.After(10 * time.Second):
+	}
+	for i := 0; i < 30; i++ {
+		c0 := processCPU()
+		select {
+		case <-done:
+			return true
+		case <-time.After(10 * time.Second):
+		}
+		if processCPU()-c0 < 200*time.Millisecond {
+			return false
+		}
+	}
+	return false
+}
+
 // applyMut returns the corrupted file content.
 func applyMut(file []byte, m c11Mut) []byte {
 	n := len(file)
 	switch m.Kind {
+	case "timestamps":
+		// every template's time of announcement is moved (a cache file kept over a long downtime, restored from a
+		// backup, written by a host with a wrong clock): 32 min, 62 min, 25 h, 10 years back, to 0, to -1, an hour or
+		// ten years ahead. The file is as well-formed as before; whether old templates are kept is the collector's
+		// choice, but loading and decoding must work and nothing may be invented
+		delta := []int64{-1920, -3720, -90000, -315360000, 0, 0, 3600, 315360000}[m.A%8]
+		return tsRe.ReplaceAllFunc(file, func(b []byte) []byte {
+			n, err := strconv.ParseInt(string(b[len(`"Timestamp":`):]), 10, 64)
+			if err != nil {
+				return b
+			}
+			switch {
+			case m.A%8 == 4:
+				n = 0
+			case m.A%8 == 5:
+				n = -1
+			default:
+				n += delta
+			}
+			return []byte(`"Timestamp":` + strconv.FormatInt(n, 10))
+		})
 	case "flip":
 		if n == 0 {
 			return file
@@ -840,19 +890,28 @@ func runC11(c *c11Case) (v verdict, sig string, err error) {
 		if perr != nil {
 			return v, "panic", fmt.Errorf("corruption %s: %v", m.Kind, perr)
 		}
-		if e := usable(lc); e != nil {
-			return v, "unusable", fmt.Errorf("corruption %s(%d,%d,%s): %v", m.Kind, m.A, m.B, m.V, e)
-		}
 		// whatever the loader made of the file, data for the exporters it knew must still be handled (decoded,
-		// reported or dropped) without taking the worker down
-		for _, pr := range probes {
-			res, perr := lc.decodeFlow(wire.ExactIP(pr.slot.Addr), pr.msg.Bytes())
-			if perr == nil && !res.Nil && len(res.Recs) > 0 {
-				_, _, perr = res.marshal()
+		// reported or dropped) without taking the worker down — and every call must come back
+		var uerr, derr error
+		if !callReturns(func() {
+			for _, pr := range probes {
+				res, perr := lc.decodeFlow(wire.ExactIP(pr.slot.Addr), pr.msg.Bytes())
+				if perr == nil && !res.Nil && len(res.Recs) > 0 {
+					_, _, perr = res.marshal()
+				}
+				if perr != nil && derr == nil {
+					derr = fmt.Errorf("corruption %s(%d,%d,%s): decoding data of exporter %x id %d against the loaded cache: %v", m.Kind, m.A, m.B, m.V, []byte(pr.slot.Addr), pr.slot.ID, perr)
+				}
 			}
-			if perr != nil {
-				return v, "panic", fmt.Errorf("corruption %s(%d,%d,%s): decoding data of exporter %x id %d against the loaded cache: %v", m.Kind, m.A, m.B, m.V, []byte(pr.slot.Addr), pr.slot.ID, perr)
-			}
+			uerr = usable(lc)
+		}) {
+			return v, "blocked", fmt.Errorf("corruption %s(%d,%d,%s): decoding against the cache loaded from the file does not return (the process sits blocked)", m.Kind, m.A, m.B, m.V)
+		}
+		if derr != nil {
+			return v, "panic", derr
+		}
+		if uerr != nil {
+			return v, "unusable", fmt.Errorf("corruption %s(%d,%d,%s): %v", m.Kind, m.A, m.B, m.V, uerr)
 		}
 		if removalOnly[m.Kind] {
 			if e := checkNothingInvented(lc, probes, false); e != nil {
